@@ -1,6 +1,6 @@
 import ast, z3
-from vf2.spec import *
-from vf2.idioms import is_call
+from vf.spec import *
+from vf.idioms import is_call
 LInt = ListT(INT); P = PairT(INT, INT); LP = ListT(P)
 ITER = RecT("Iter", {"seq": LInt, "pos": INT})
 COMB = z3.Function("comb2", LInt.sort(), LP.sort())
